@@ -12,7 +12,7 @@ LEVEL_NOTE = ("theorems: lfn_units (make_lfn u sfn) = u for every name of 1..255
               "generated set; the alias loop returns a name not among the taken ones; tie: make_lfn / alias / create through the real functions")
 TRUSTED = ["Coq 8.16.1 kernel", "tools/translate.py (INVALID_CHARACTERS, layouts, checksum)", "extraction + driver",
            "str.upper / os.path.splitext / codecs are Python's: the name record passed to the model is computed with them"]
-RULE = ("names: every length 1..255 (ASCII and mixed alphabets), every multiple of 13 +-1, embedded spaces and dots, leading dots, upper / lower / mixed "
+RULE = ("names: every length 1..255 (ASCII and mixed alphabets), every multiple of 13 +-1, embedded spaces and dots, leading dots and spaces (names with no usable stem), upper / lower / mixed "
         "case, characters outside the OEM page, non-BMP characters (also straddling slot boundaries), alias collisions to 3-digit tails; x ibm437, cp850, "
         "cp866, cp1252 x preserve_case; each name is created (file or directory), looked up by the name given, listed, looked up after remount, and "
         "every earlier name must stay reachable.  non-trivial = name needing a long-name set; distinct = by (name, code page, case mode)")
@@ -30,6 +30,8 @@ def legal_names(rng, enc, n_random):
             "with+plus", "semi;colon", "eq=ual", "br[ack]et", "comma,name", "tilde~1.txt", "LONGFI~1.TXT", "ABCDEFGH.IJK", "ABCDEFGHI.TXT", "A.TXTX",
             "Ünïcödé.dat", "ÅÄÖ.TXT", "naïve café.txt", "日本語.txt", "αβγδ.doc", "Ж" * 14 + ".ю", "😀.bin", "abcdefghijkl😀.txt", "abcdefghijk😀x.txt",
             "mixé😀é.x", "Maßstäbe.txt", "Straßenverzeichnis", "messwerte.maß", "ﬁnal.ﬂ", "İstanbul.txt", "ǆ.txt", "a" * 12 + "😀" * 6, "😀" * 127]
+    # names without a usable stem in the first 8 characters (D37): spaces (and dots) only before the last dot, 8 and more leading spaces
+    out += [" .a", " .b", "  .txt", " .   c", ". .d", " . .e", " ..f", "         x", "         y.txt", "        .z", " lead", "  .lead two.x"]
     for i in range(1, 14):
         out.append(f"collide long name {i:02d}.txt")
     for _ in range(n_random):
